@@ -202,12 +202,31 @@ def build_harness(featset="hac", profile="debug"):
 
 # ------------------------------------------------------------------ running
 
+CHUNK_TIMEOUT = int(os.environ.get("VERIF_CHUNK_TIMEOUT", "180"))
+
+
 def _run_chunk(binary, engine, lines, is_impl):
     """returns list of output lines, same length as lines; crashes are attributed to the case"""
     outs = []
     todo = list(lines)
     while todo:
-        p = subprocess.run([binary, engine], input="\n".join(todo) + "\n", capture_output=True, text=True)
+        try:
+            p = subprocess.run([binary, engine], input="\n".join(todo) + "\n", capture_output=True, text=True, timeout=CHUNK_TIMEOUT)
+        except subprocess.TimeoutExpired as te:
+            # the worker hangs (an endless loop in the code under test): attributed to the case it was working on, like a crash
+            so = te.stdout or ""
+            if isinstance(so, bytes):
+                so = so.decode("utf-8", "replace")
+            got = so.split("\n")
+            if got and got[-1] != "":
+                got.pop()          # a partial last line belongs to the hanging case
+            elif got:
+                got.pop()
+            k = min(len(got), len(todo) - 1)
+            outs.extend(got[:k])
+            outs.append("ABORT timeout: no answer within %d s (endless loop?)" % CHUNK_TIMEOUT)
+            todo = todo[k + 1:]
+            continue
         got = p.stdout.split("\n")
         if got and got[-1] == "":
             got.pop()
